@@ -61,6 +61,22 @@ def exc_text(e):
     return getattr(e, "_verif_text", None) or _exc_text(e)
 
 
+def _sweep_stale_tmp(prefix="c18-", older_than_s=3600.0):
+    """Temp directories of workers that were killed (pool.terminate on a budget cap) never reach their `finally`:
+    remove our own leftovers that are older than an hour. Never part of any hash or verdict."""
+    import os, shutil, time
+
+    root = os.environ.get("VERIF_TMP", "/var/tmp")
+    try:
+        for name in os.listdir(root):
+            if name.startswith(prefix):
+                q = os.path.join(root, name)
+                if time.time() - os.path.getmtime(q) > older_than_s:
+                    shutil.rmtree(q, ignore_errors=True)
+    except OSError:
+        pass
+
+
 PROPERTY = "C18"
 RULE = (
     "complete product format x D x channels x dtype x grid x compress (x size, thorough) and, per configuration, every "
@@ -682,6 +698,7 @@ def shards(tier, seed):
 
 def run_shard(shard) -> Acc:
     acc = Acc()
+    _sweep_stale_tmp()
     cfgs = [c for c in configs(shard["tier"], shard["seed"]) if (c["fmt"], c["D"], c["C"], c["dt"]) == (shard["fmt"], shard["D"], shard["C"], shard["dt"])]
     for cfg in cfgs:
         for case in cases_of(cfg):
